@@ -136,7 +136,8 @@ def symptom_of_exception(e):
 def check(acc, job):
     headers, seq, seed = job[:3]
     blank_at = job[3] if len(job) > 3 else None
-    m = X.seq_model(headers, seq, seed, cap=4)
+    from .. import docspace as D
+    m = D.materialise((headers, seq, seed), cap=4)
     if m is None:
         return
     text = m.text()
@@ -173,8 +174,12 @@ def check(acc, job):
     except Exception:
         return      # C03 decides the full export
     nk = sum(1 for h in headers if h == '**kern')
-    for a in range(1, M + 1):
-        for b in range(a, M + 1):
+    pairs = [(a, b) for a in range(1, M + 1) for b in range(a, M + 1)]
+    if M > 80:      # a very long score: ranges over the boundary values only (powers of two and of ten, both ends, the whole score)
+        marks = sorted(x for x in {1, 2, 9, 10, 11, 63, 64, 65, 66, 99, 100, 101, 127, 128, 129, 130, 255, 256, 257, 258, 300, M - 40, M - 2, M - 1, M} if 1 <= x <= M)
+        pairs = [(a, a) for a in marks] + [(a, b) for a in marks for b in marks if a < b and (b - a <= 3 or a == 1 or b == M)]
+    for a, b in pairs:
+        if True:
             end_row = starts[b] if b < M else len(rows)
             cl = classify(rows, len(headers), starts[a - 1], end_row, kern_cols, has_nonkern, spine_rows)
             case = dict(case0, from_measure=a, to_measure=b, M=M, cls=cl)
@@ -220,7 +225,8 @@ def _job(jobs):
     for j in jobs:
         check(acc, j)
     if jobs:
-        m = X.seq_model(*jobs[len(jobs) // 2][:3], cap=4)
+        from .. import docspace as D
+        m = D.materialise(jobs[len(jobs) // 2][:3], cap=4)
         if m is not None:
             acc.sample({'text': m.text(), 'ranges': 'every 1<=a<=b<=M, each labelled by the model state at its first row'}, cap=1)
     return acc
@@ -254,7 +260,7 @@ def run(ctx):
             extra.append((j[0], j[1], j[2], 1 + (k // 3) % 3))
     jobs += extra
     from .. import docspace as D
-    ctx.pmap(_job, [[j] for j in D.long_kern_docs(seed, reps=(3, 6))] + list(X.chunks(jobs, 120)), chunksize=1)
+    ctx.pmap(_job, [[j] for j in D.long_kern_docs(seed, reps=(3, 6)) + [(['**kern', '**kern'], ['GIANT', '1500', 'nocomments'], seed), (['**kern'], ['GIANT', '1200', 'nocomments'], seed + 1)]] + list(X.chunks(jobs, 120)), chunksize=1)
     ctx.extra['cases_per_class'] = {k[6:]: v for k, v in ctx.n.items() if k.startswith('class:')}
 
 
